@@ -54,6 +54,7 @@ type SW struct {
 	ParentReported bool   // a watch on that directory reported IN_DELETE for it
 	Overwritten    bool   // a watch on that directory reported IN_MOVED_TO onto its name (rename-overwrite: no IN_DELETE follows)
 	Recurse        bool
+	Plain          bool // in Recursive mode: an ordinary (non-recursive) watch, whose IN_MOVE_SELF ends it as usual
 }
 
 type D5 struct {
@@ -257,7 +258,7 @@ func (s *Shadow) Translate(batch []Raw) (out []Ev) {
 			s.Ended = append(s.Ended, w.Path)
 			continue
 		}
-		if s.Recursive && r.Mask&unix.IN_MOVE_SELF != 0 {
+		if s.Recursive && !w.Plain && r.Mask&unix.IN_MOVE_SELF != 0 {
 			continue
 		}
 		if r.Mask&(unix.IN_DELETE_SELF|unix.IN_MOVE_SELF) != 0 {
